@@ -11,6 +11,7 @@
   C03.f end of walk  a step function returns None only on the true side of `<header count | edns_count | rrs_left> == 0`
   C03.g reader premise  rr_ip / rr_rd read 4 / 16 bytes unchecked: every accepting path of the validator on which the type is A / AAAA
                      passes the `rdlen == 4 / 16` test (shared with C02.a)
+  C03.i reader demands  every length demand of rr_ip beyond the 10 fixed bytes sits behind the type test (A: 4, AAAA: 16) that justifies it
   C03.h trusted asserts  every assertion in RRIterator::skip_name is implied by the validator's guarantee behind a name position
                      (len - q >= 6 at a pointer, len - q >= L + 6 at a label)
   C03.c layout       (see rules/layout.py) the readers' field tuples equal the RFC table, the validator's and the builder's
@@ -151,7 +152,111 @@ def run(ctx):
         trusted_assert_rule(ctx, facts, cfg)
         from rules import C02
         C02.address_size_rule(ctx, facts, cfg, 'C03.g')
+        reader_demand_rule(ctx, facts, cfg)
     ctx.assume('cursor invariants of accepted packets (offset <= offset_next <= len) are run-time facts and are not decided here')
+
+
+def _fold(e):
+    """constant value of an expression of constants (with or without overflow checks), else None"""
+    if e[0] == 'const' and isinstance(e[1], int):
+        return e[1]
+    if e[0] == 'field' and len(e) > 2 and isinstance(e[2], tuple):      # (checked add).0
+        return _fold(e[2])
+    if e[0] == 'binop' and e[1].startswith(('Add', 'Sub', 'Mul')):
+        a, b = _fold(e[2]), _fold(e[3])
+        if a is None or b is None:
+            return None
+        return a + b if e[1].startswith('Add') else a - b if e[1].startswith('Sub') else a * b
+    if e[0] == 'cast':
+        return _fold(e[2])
+    return None
+
+
+def reader_demand_rule(ctx, facts, cfg):
+    """C03.i: the reader's side of the A / AAAA premise (C03.g is the validator's side).
+
+    The record view (`rdata_slice`) is guaranteed to hold the 10 fixed bytes of a record; anything beyond is known only
+    through the record type: 4 more bytes when the type is A, 16 when it is AAAA.  Every length demand of `rr_ip`
+    (an assertion `len >= K`, a constant sub-slice `[a..K]`) with K > 10 must therefore sit behind the true edge of
+    `rr_type() == Type::X` with size(X) >= K - 10; a demand made before the type is known panics on a short record of
+    another type (rr_rd calls rr_ip for every record)."""
+    from rules import C02
+    rid = 'C03.i'
+    pol = C02.policy()
+    H = pol['rr_header_size']
+    grant = {'A': pol['a_len'], 'AAAA': pol['aaaa_len']}
+    key = 'rr_iterator::RdataIterable::rr_ip'
+    f = facts.fns.get(key)
+    if f is None:
+        ctx.missing(rid, key)
+        return
+    defs = F.single_defs(f)
+    dom = F.dominators(f)
+    preds = {}
+    for bi, b in F.blocks(f):
+        for m in F.succ(b):
+            preds.setdefault(m, set()).add(bi)
+    # type edges: block entered only through the true edge of `rr_type() == Type::X.into()`
+    edges = {}
+    for bi, b in F.blocks(f):
+        t = b['term']
+        if t['k'] != 'switch':
+            continue
+        e = F.expr(f, defs, t['discr'])
+        if e[0] == 'binop' and e[1] == 'Eq':
+            sides = [e[2], e[3]]
+            if any(x[0] == 'call' and x[1].endswith('::rr_type') for x in sides):
+                for x in sides:
+                    c = _enum_const(x)
+                    if c and c[0] == 'constants::Type':
+                        tes = [t['otherwise']] if all(v == 0 for v, _ in t['targets']) else [tb for v, tb in t['targets'] if v == 1]
+                        for te in tes:
+                            if preds.get(te) == {bi}:
+                                edges[te] = c[1]
+    def is_len(x):
+        return (x[0] == 'call' and x[1].endswith('::len')) or (x[0] == 'unop' and x[1] == 'PtrMetadata')
+    demands = []
+    for bi, b in F.blocks(f):
+        t = b['term']
+        if t['k'] == 'switch':
+            e = F.expr(f, defs, t['discr'])
+            if e[0] == 'binop' and e[1] in ('Ge', 'Gt', 'Le', 'Lt'):
+                l, r = e[2], e[3]
+                if is_len(l) or is_len(r):
+                    other = r if is_len(l) else l
+                    K = _fold(other)
+                    if e[1] in ('Gt',) and is_len(l) or e[1] == 'Lt' and is_len(r):
+                        K = None if K is None else K + 1
+                    demands.append((bi, K, 'length test `%s`' % e[1], t.get('at') or b.get('at')))
+        elif t['k'] == 'assert' and 'BoundsCheck' in str(t.get('msg')):
+            demands.append((bi, None, 'index bounds check', t.get('at')))
+        elif t['k'] == 'call':
+            path = t['callee'].get('resolved') or t['callee'].get('path') or ''
+            if path.startswith('core::slice::index::') and path.endswith('::index') or path.endswith('::index_mut') and 'slice' in path:
+                a = F.expr(f, defs, t['args'][1]) if len(t['args']) > 1 else ('unknown',)
+                K = None
+                if a[0] == 'agg' and a[3]:
+                    ks = [_fold(x) for x in a[3]]
+                    K = None if any(k is None for k in ks) else max(ks)
+                demands.append((bi, K, 'sub-slice `%s`' % (a[2] if a[0] == 'agg' else '?'), t.get('at')))
+    n = 0
+    for bi, K, what, at in demands:
+        if K is not None and K <= H:
+            ctx.instance(rid, 'rr_ip %s needs %d bytes: inside the fixed part (%d) [%s]' % (what, K, H, cfg), site=at)
+            continue
+        n += 1
+        have = [(te, v) for te, v in edges.items() if te in dom.get(bi, ()) or te == bi]
+        granted = max([grant.get(v, 0) for te, v in have], default=0)
+        if K is None:
+            ctx.violation(rid, key, 'demand not constant: ' + what, 'a length demand of rr_ip (%s) is not a constant: cannot be matched with the validated size of an address record' % what, site=at, kind='undecided', config=cfg)
+        elif K - H > granted:
+            ctx.violation(rid, key, 'demand of %d bytes of record data under %s' % (K - H, '/'.join(sorted(v for _, v in have)) or 'no type test'),
+                          'rr_ip demands %d bytes of record data (%s, %d in all) where the record type %s: only A (4) / AAAA (16) records are known to be that long, any other record may be shorter and the accessor panics'
+                          % (K - H, what, K, ('is known to be ' + '/'.join(sorted(v for _, v in have))) if have else 'has not been tested'), site=at, config=cfg)
+        else:
+            ctx.instance(rid, 'rr_ip %s demands %d bytes of record data behind rr_type() == %s (validated size %d) [%s]' % (what, K - H, '/'.join(sorted(v for _, v in have)), granted, cfg), site=at)
+    if n < 4:
+        ctx.violation(rid, '<floor>', 'length demands', 'only %d type-dependent length demands found in rr_ip, expected 4 (two assertions, two sub-slices)' % n, kind='below-floor', config=cfg)
 
 
 def none_rule(ctx, facts, cfg):
